@@ -85,6 +85,10 @@ def docs():
     d.entity("ex:e1", {"ex:k": "l1\nl2 \"quoted\" <&> ]]> \\ \t end"})
     out.append(("markup-string", d))
     d = new()
+    # characters that str.splitlines() treats as line ends but XML / JSON do not
+    d.entity("ex:e1", {"ex:k": "l1\u2028l2\u2029l3\x85l4", "prov:label": Literal("a\u2028b", langtag="en")})
+    out.append(("unicode-line-separators", d))
+    d = new()
     d.agent("ex:g1")
     d.agent("ex:g2", {"prov:type": QualifiedName(Namespace("prov", "http://www.w3.org/ns/prov#"), "Person")})
     d.delegation("ex:g2", "ex:g1", identifier="ex:d1", other_attributes={"ex:k": "délégation"})
@@ -95,6 +99,12 @@ def docs():
     d.entity("ex:e1", {"prov:value": "€"})
     out.append(("two-namespaces", d))
     return out
+
+
+# writer-option variants are treated as formats of their own (same readers as the base format)
+VARIANTS = {"json/ensure_ascii=False": ("json", {"ensure_ascii": False, "indent": 1}),
+            "json/sort_keys": ("json", {"sort_keys": True}),
+            "xml/force_types": ("xml", {"force_types": True})}
 
 
 class NonSeekable(object):
@@ -167,19 +177,25 @@ class C16(spec.Spec):
             shutil.rmtree(tmp, ignore_errors=True)
 
     def ser(self, doc, fmt, dest=None):
+        fmt, opts = VARIANTS.get(fmt, (fmt, {}))
         if fmt == "rdf":
             c13._reset_bnodes()
-        return doc.serialize(dest, format=fmt) if dest is not None else doc.serialize(format=fmt)
+        return doc.serialize(dest, format=fmt, **opts) if dest is not None else doc.serialize(format=fmt, **opts)
 
     def run_cell(self, name, doc, fmt, tmp, hh, out):
-        # ---- destinations
+        variant = fmt
+        base = VARIANTS.get(fmt, (fmt, {}))[0]
+        self._run_cell(name, doc, variant, base, tmp, hh, out)
+
+    def _run_cell(self, name, doc, fmt, base, tmp, hh, out):
+        # ---- destinations (fmt = variant used for writing, base = format name used for comparing / reading)
         try:
             s_ret = self.ser(doc, fmt)
             sio = io.StringIO()
             self.ser(doc, fmt, sio)
             bio = io.BytesIO()
             self.ser(doc, fmt, bio)
-            path = os.path.join(tmp, "out-é." + fmt)
+            path = os.path.join(tmp, "out-é." + base)
             self.ser(doc, fmt, path)
             with open(path, "rb") as f:
                 fbytes = f.read()
@@ -195,7 +211,7 @@ class C16(spec.Spec):
             if not isinstance(texts[k], bytes):
                 out.violation("binary-target-not-bytes", "%s:%s" % (fmt, k), {}, hh)
                 return
-        if fmt == "xml":
+        if base == "xml":
             canon = {k: c14n(v) for k, v in texts.items()}
             ref = canon["returned"]
             for k, v in canon.items():
@@ -226,7 +242,7 @@ class C16(spec.Spec):
             "binary-stream-nonseekable": lambda: dict(source=NSBytes(io.BytesIO(data))),
             "path": lambda: dict(source=path),
         }
-        if fmt == "provn":
+        if base == "provn":
             # write-only format: every reader must fail, none may return a document
             for sname, mk in sources.items():
                 kw = mk()
@@ -241,10 +257,10 @@ class C16(spec.Spec):
             out.nontrivial += 1
             return
         for sname, mk in sources.items():
-            readers = [("deserialize", lambda kw: ProvDocument.deserialize(format=fmt, **kw))]
+            readers = [("deserialize", lambda kw: ProvDocument.deserialize(format=base, **kw))]
             if "source" in mk():
-                readers.append(("prov.read(format)", lambda kw: prov.read(kw["source"], format=fmt)))
-                readers.append(("prov.read(FORMAT)", lambda kw: prov.read(kw["source"], format=fmt.upper())))
+                readers.append(("prov.read(format)", lambda kw: prov.read(kw["source"], format=base)))
+                readers.append(("prov.read(FORMAT)", lambda kw: prov.read(kw["source"], format=base.upper())))
                 readers.append(("prov.read()", lambda kw: prov.read(kw["source"])))
             for rname, rd in readers:
                 out.transitions += 1
@@ -255,7 +271,7 @@ class C16(spec.Spec):
                     out.violation("reader-raises", "%s:%s:%s:%s" % (fmt, sname, rname, type(e).__name__),
                                   {"error": repr(e)[:300]}, hh)
                     continue
-                if got is None or not same_doc(fmt, got, doc):
+                if got is None or not same_doc(base, got, doc):
                     out.violation("reader-returns-other-document", "%s:%s:%s" % (fmt, sname, rname),
                                   {"got": "None" if got is None else repr(observe.dobs(got))[:400],
                                    "want": repr(observe.dobs(doc))[:400]}, hh)
@@ -284,14 +300,14 @@ def main(tier, seed):
     from .. import runner
     t0 = time.time()
     sp = make_spec(tier, {})
-    items = [(i, f) for i in range(len(sp.docs)) for f in ("json", "xml", "rdf", "provn")]
+    items = [(i, f) for i in range(len(sp.docs)) for f in ("json", "xml", "rdf", "provn") + tuple(VARIANTS)]
     out = explore.pmap(__name__, tier, {}, "cell", items, chunk=1)
     out.evaluations -= len(items)
     vs, nsig = runner.violations_json(sp, out)
     cov = {
         "states": out.nontrivial, "transitions": out.transitions, "traces_validated_against_impl": out.conform,
         "evaluations": out.evaluations, "distinct_nontrivial": out.nontrivial,
-        "rule": ("full product of %d documents x 4 formats x 4 destinations, then x 7 sources (content str/bytes, text/"
+        "rule": ("full product of %d documents x 7 formats / writer-option variants x 4 destinations, then x 7 sources (content str/bytes, text/"
                  "binary stream seekable and not, path) x up to 4 readers (deserialize, prov.read with format in lower and "
                  "upper case, prov.read without format); distinct = (document, format) cell; non-trivial = all "
                  "destinations compared and all sources read" % len(sp.docs)),
